@@ -9,7 +9,7 @@ Theorem C08_id3f_delete : forall f s, id3f_wf f = true -> id3f_parse f = Ok s ->
   id3f_delete f = Ok (i_mid s) /\
   id3f_parse (i_mid s) = Ok (mkI None (i_mid s) None) /\
   id3f_load (i_mid s) = Ok None /\
-  starts_with M_ID3 (i_mid s) = false /\ find_id3v1 (i_mid s) = None /\
+  starts_with M_ID3 (i_mid s) = false /\ find_id3v1 0 (i_mid s) = None /\
   id3f_delete (i_mid s) = Ok (i_mid s) /\
   zlen f = tag_size s + zlen (i_mid s) + v1_size s /\
   id3f_wf (i_mid s) = true.
